@@ -100,7 +100,15 @@ def run(oc, tier, seed, model_available, escalate):
             if single not in t2:
                 single = None
         efile = os.path.join(d, "errors.csv")
-        argv = ["-i", os.path.join(chk_root, single) if single else chk_root, "-d", db, "-e", efile, "--silent"]
+        inpath = chk_root
+        if single:
+            # the same file spelled in different ways (the tool compares paths as strings in single-file mode)
+            sp = rng.choice(["plain", "plain", "double-slash", "dot-component", "relative"])
+            inpath = {"plain": os.path.join(chk_root, single), "double-slash": chk_root + "//" + single,
+                      "dot-component": os.path.join(chk_root, ".", single),
+                      "relative": os.path.relpath(os.path.join(chk_root, single), os.getcwd())}[sp]
+            oc.count("single-file path spelling:" + sp)
+        argv = ["-i", inpath, "-d", db, "-e", efile, "--silent"]
         if opts["m"]:
             argv.append("-m")
         if opts["sm"]:
